@@ -27,13 +27,28 @@ func out(sev string, s string) {
 	}
 }
 
-// V always reports false unless debugging: verbose logging is off by default
-// in the shipped binaries too.
-func V(l Level) Verbose { return Verbose(Debug) }
+// Verbosity is the -v level of the simulated process (0 = verbose logging
+// off, as in the shipped binaries by default). A harness may raise it for a
+// run: the `if log.V(n) { ... }` blocks and `log.V(n).Infof` calls then run
+// and format their arguments (nothing is printed unless debugging).
+var Verbosity Level
+
+// V reports whether verbose logging at level l is on.
+func V(l Level) Verbose { return Verbose(Debug || l <= Verbosity) }
 
 func (v Verbose) Info(args ...any) {
 	if v {
 		out("V", fmt.Sprint(args...))
+	}
+}
+func (v Verbose) Warningf(f string, args ...any) {
+	if v {
+		out("V", fmt.Sprintf(f, args...))
+	}
+}
+func (v Verbose) Errorf(f string, args ...any) {
+	if v {
+		out("V", fmt.Sprintf(f, args...))
 	}
 }
 func (v Verbose) Infoln(args ...any) {
